@@ -418,3 +418,22 @@ Theorem tag_history_last hist new k :
   tag_lookup (tag_history (hist ++ [new])) k
   = match tag_lookup new k with Some v => Some v | None => tag_lookup (tag_history hist) k end.
 Proof. unfold tag_history. rewrite fold_left_app. simpl. apply with_tags_lookup. Qed.
+
+(* the empty list of names: keep / all select no row (of any kind), drop / skip remove none *)
+Lemma rows_named_empty skip dofnames off n :
+  rows_named skip dofnames [] off n = if skip then seq 0 n else [].
+Proof.
+  unfold rows_named, name_in. simpl. destruct skip; simpl.
+  - induction (seq 0 n) as [|x l IH]; simpl; [reflexivity | now rewrite IH].
+  - induction (seq 0 n) as [|x l IH]; simpl; [reflexivity | exact IH].
+Qed.
+
+Lemma inter_nil a : inter a [] = [].
+Proof. unfold inter. induction a as [|x a IH]; simpl; [reflexivity | exact IH]. Qed.
+
+Theorem keep_empty_names D dofnames offs v : flatten D (keep D dofnames offs v []) = [].
+Proof.
+  unfold keep, with_rows, names_to_rows. destruct offs as [[of_ oe] oi]. rewrite !rows_named_empty.
+  unfold flatten. cbn [V_nodal_rows V_facet_rows V_edge_rows V_interior_rows V_nodal_ix V_facet_ix V_edge_ix V_interior_ix].
+  rewrite !inter_nil. reflexivity.
+Qed.
